@@ -57,6 +57,7 @@ if REPO != "/repo":
 if REPO == "/repo":
     EVIDENCE = os.path.join(ROOT, "evidence")
     REPLAY = os.path.join(ROOT, "replay")
+CALL_TIMEOUT = int(os.environ.get("VERIF_CALL_TIMEOUT", "900"))
 NCPU = int(os.environ.get("VERIF_JOBS", str(min(16, os.cpu_count() or 4))))
 
 EXIT_OK, EXIT_VIOLATION, EXIT_INCONCLUSIVE = 0, 1, 3
@@ -200,6 +201,13 @@ class Harness:
         try:
             self.p.stdin.write(hdr.encode() + payload)
             self.p.stdin.flush()
+            # generous wall-clock watchdog (a batch normally answers within seconds): its firing is *inconclusive*
+            import select
+            if not select.select([self.p.stdout], [], [], CALL_TIMEOUT)[0]:
+                self.p.kill()
+                self.p.wait()
+                self.p = None
+                raise HarnessDied("watchdog", op, "no reply within %d s (wall-clock watchdog; a hang in the library or an overloaded machine)" % CALL_TIMEOUT)
             line = self.p.stdout.readline()
             if not line:
                 raise BrokenPipeError
